@@ -1136,3 +1136,45 @@ def check_recursion(ctx, rep, E):
                witness="call-graph cycle whose depth grows with the input (one Python frame per nesting level): RecursionError can escape",
                nontrivial=True, key="cycle/" + _cycle_role(ctx, comp))
     return len(sccs)
+
+
+def check_none_as_index(ctx, rep, E):
+    """X-none-index (a contradiction rule): where a function tests an expression against None, it believes the expression can be
+    None; a use of the same expression (directly, or through a local that names it) as a subscript *index* must then be
+    dominated by the fact that it is not None -- `seq[None]` raises TypeError, which is in no translator's contract.
+    (The `else` arm of `x is None and <more>` does not establish x is not None.)"""
+    from sa.guards import guard_facts
+    from sa.discharge import noreturn_pred
+    from rules.shared import resolve_local
+    n = 0
+    for key in E.order:
+        f = E.infos[key].f
+        tested = set()
+        for c in own_nodes(f.node):
+            if isinstance(c, ast.Compare) and len(c.ops) == 1 and isinstance(c.ops[0], (ast.Is, ast.IsNot)) \
+                    and isinstance(c.comparators[0], ast.Constant) and c.comparators[0].value is None \
+                    and isinstance(c.left, (ast.Subscript, ast.Attribute, ast.Name)):
+                tested.add(unparse(c.left))
+        if not tested:
+            continue
+        facts = None
+        for sub in own_nodes(f.node):
+            if not (isinstance(sub, ast.Subscript) and not isinstance(sub.slice, ast.Slice)):
+                continue
+            idx = sub.slice
+            e = resolve_local(f, idx) if isinstance(idx, ast.Name) else idx
+            txt = unparse(e)
+            if txt not in tested and unparse(idx) not in tested:
+                continue
+            if facts is None:
+                facts = guard_facts(f, noreturn_pred(ctx, f))
+            fs = facts.get(id(sub), frozenset())
+            ok = any(fc[0] == "notnone" and fc[1] in (txt, unparse(idx)) for fc in fs) or \
+                any(fc[0] == "truthy" and fc[1] in (txt, unparse(idx)) for fc in fs)
+            n += 1
+            rep.ob("X-none-index", ok, sub, f, construct="%s used as an index (%s)" % (txt, unparse(sub)[:40]),
+                   how="dominated by the test that it is not None (the function tests it against None elsewhere)", nontrivial=True,
+                   key="%s/%s/%s" % (f.name, alpha(unparse(sub), f), "ok" if ok else "bad"),
+                   witness=None if ok else "%s can be None here (the function itself tests it against None) and is used as an index: "
+                   "TypeError escapes instead of the translator's own error" % txt)
+    return n
